@@ -225,3 +225,102 @@ func Harness_C12_CallDisclosure() {
 		vCover("caller-disclosed")
 	}
 }
+
+// shared registration: what one callee is told about the caller does not
+// depend on which other callees joined or left the registration
+func Harness_C12_SharedRegistrationDisclosure() {
+	allow := vBool("allowDisclose")
+	d := newDealer(vNopLog{}, false, allow, false)
+	policy := []string{"first", "last", "roundrobin"}[vChoice("invoke", 3)]
+	var trusted, feat, asked [2]bool
+	var callee [2]*vSess
+	for k := 0; k < 2; k++ {
+		trusted[k] = vBool("callee.trusted")
+		feat[k] = vBool("callee.caller_identification")
+		role := "user"
+		if trusted[k] {
+			role = "trusted"
+		}
+		callee[k] = vNewSess(wamp.ID(71+k), wamp.Dict{"authrole": role}, vFeat("callee", map[string]bool{"caller_identification": feat[k], "shared_registration": true}), 16)
+	}
+	caller := vNewSess(75, wamp.Dict{"authid": "carol", "authrole": "ops"}, vFeat("caller", map[string]bool{"caller_identification": true}), 16)
+	discloseMe := vBool("disclose_me")
+	if discloseMe && !allow {
+		return // refused calls: Harness_C12_CallDisclosure
+	}
+	register := func(k int) bool {
+		o := wamp.Dict{"invoke": policy}
+		if vChoice("disclose_caller.present", 2) == 1 {
+			asked[k] = vBool("disclose_caller")
+			o["disclose_caller"] = asked[k]
+		}
+		d.register(callee[k].s, &wamp.Register{Request: wamp.ID(1 + k), Procedure: "p.q", Options: o})
+		vSyncDealer(d)
+		rr := callee[k].vDrain()
+		vAssert("register-reply", len(rr) == 1)
+		if asked[k] && !allow && !trusted[k] {
+			e, ok := rr[0].(*wamp.Error)
+			vAssert("disclose-caller-refused", ok && e.Error == wamp.ErrOptionDisallowedDiscloseMe)
+			return false
+		}
+		_, ok := rr[0].(*wamp.Registered)
+		vAssert("registered", ok)
+		return ok
+	}
+	req := wamp.ID(100)
+	// call returns which callee was invoked and whether it was told who calls
+	call := func() (int, bool) {
+		req++
+		d.call(caller.s, &wamp.Call{Request: req, Procedure: "p.q", Options: wamp.Dict{"disclose_me": discloseMe}})
+		vSyncDealer(d)
+		vAssert("caller-hears-nothing-yet", len(caller.vDrain()) == 0)
+		for k := 0; k < 2; k++ {
+			im := callee[k].vDrain()
+			if len(im) == 0 {
+				continue
+			}
+			inv, ok := im[0].(*wamp.Invocation)
+			vAssert("one-invocation", ok && len(im) == 1)
+			if !ok {
+				return -1, false
+			}
+			_, hasID := inv.Details["caller"]
+			_, hasAuthid := inv.Details["caller_authid"]
+			_, hasRole := inv.Details["caller_authrole"]
+			vAssert("identity-fields-together", hasID == hasAuthid && hasID == hasRole)
+			// finish the call so that the next one starts from a clean slate
+			d.yield(callee[k].s, &wamp.Yield{Request: inv.Request})
+			vSyncDealer(d)
+			caller.vDrain()
+			return k, hasID
+		}
+		vAssert("call-routed", false)
+		return -1, false
+	}
+	if !register(0) {
+		return
+	}
+	who, told0 := call()
+	vAssert("only-callee-invoked", who == 0)
+	want0 := asked[0] || (discloseMe && allow && feat[0])
+	vAssert("caller-identity-iff-allowed", told0 == want0)
+	// a second callee joins (its own disclose_caller request may be granted or refused)
+	joined := register(1)
+	for i := 0; i < 2; i++ {
+		who, told := call()
+		if who == 0 {
+			vAssert("first-callee-unaffected-by-co-callee", told == told0)
+		} else if who == 1 {
+			vAssert("second-callee-told-only-if-requested-and-allowed", vImplies(told, asked[0] || (joined && asked[1]) || (discloseMe && allow && feat[1])))
+			vCover("second-callee-invoked")
+		}
+	}
+	if joined {
+		d.removeSession(callee[1].s)
+		vSyncDealer(d)
+		who, told := call()
+		vAssert("first-callee-again", who == 0)
+		vAssert("first-callee-unaffected-after-co-callee-left", told == told0)
+		vCover("co-callee-joined-and-left")
+	}
+}
